@@ -146,8 +146,12 @@ def encoding(e):
     if isinstance(e, enc.StringDataEncoding):
         lk = "-" if e.discrete_lookup_length is None else [dl(d) for d in e.discrete_lookup_length]
         term = "-" if e.termination_character is None else hx(e.termination_character)
+        bo = getattr(e, "byte_order", None)
+        if bo is None and e.encoding in ("UTF-16", "UTF-32"):
+            bo = "unrecorded"        # the constructor drops a declared byte order for these (DESIGN.md §8-6)
         return ["str", S(e.encoding), optI(e.fixed_length), optS(e.dynamic_length_reference), lk,
-                B(e.use_calibrated_value), adjuster(e.length_linear_adjuster), term, optI(e.leading_length_size)]
+                B(e.use_calibrated_value), adjuster(e.length_linear_adjuster), term, optI(e.leading_length_size),
+                optS(bo)]
     if isinstance(e, enc.BinaryDataEncoding):
         lk = "-" if e.size_discrete_lookup_list is None else [dl(d) for d in e.size_discrete_lookup_list]
         return ["bin", optI(e.fixed_size_in_bits), optS(e.size_reference_parameter), B(e.use_calibrated_value), lk,
